@@ -46,6 +46,14 @@ impl Sc {
 /// bit pattern (zero-extended to u64) of a named token in a scalar type
 pub fn tok_bits(sc: Sc, tok: &str) -> u64 {
     let m = sc.mask();
+    if let Some(n) = tok.strip_prefix('t').and_then(|x| x.parse::<u64>().ok()) {
+        // numbered tokens: pairwise distinct; for floats every third one is a NaN with its own payload
+        return match sc {
+            Sc::F32 => (if n % 3 == 0 { 0x7fc0_0000 + 0x111 * n as u32 } else if n % 3 == 1 { (1.25f32 * n as f32 - 7.5).to_bits() } else { (-(0.3f32 * n as f32) - 100.0).to_bits() }) as u64,
+            Sc::F64 => if n % 3 == 0 { 0x7ff8_0000_0000_0000 + 0x10101 * n } else if n % 3 == 1 { (1.25f64 * n as f64 - 7.5).to_bits() } else { (-(0.3f64 * n as f64) - 100.0).to_bits() },
+            _ => (0x0101_0101_0101_0101u64.wrapping_mul(n + 2) ^ (n << 3)) & m,
+        };
+    }
     match sc {
         Sc::F32 => (match tok {
             "zero" => 0.0f32.to_bits(),
